@@ -345,14 +345,21 @@ def quiet():
 
 
 def snapshot(root):
-    """name -> ('d',) | ('f', size, sha256, mode) for everything under root."""
+    """name -> ('d', mode) | ('f', size, sha256, mode) | ('l', target) for everything under
+    root (symbolic links are recorded as links, never followed)."""
     snap = {}
     for base, dirs, files in os.walk(root):
         for d in dirs:
             p = os.path.join(base, d)
+            if os.path.islink(p):
+                snap[os.path.relpath(p, root)] = ("l", os.readlink(p))
+                continue
             snap[os.path.relpath(p, root)] = ("d", oct(os.stat(p).st_mode & 0o7777))
         for f in files:
             p = os.path.join(base, f)
+            if os.path.islink(p):
+                snap[os.path.relpath(p, root)] = ("l", os.readlink(p))
+                continue
             with open(p, "rb") as fd:
                 data = fd.read()
             snap[os.path.relpath(p, root)] = ("f", len(data),
